@@ -480,10 +480,29 @@ class InstanceState(interfaces.InspectionAttrInfo, Generic[_O]):
             session.dispatch.persistent_to_transient or None
         )
 
+        deleted_to_persistent = session.dispatch.deleted_to_persistent or None
+
         for state in states:
+            if state.session_id != session.hash_key:
+                # left the session earlier (expunge / make_transient) but is
+                # still referred to by a transaction snapshot: it is no
+                # longer this session's to change, and no event applies
+                continue
+
             deleted = state._deleted
             pending = state.key is None
             persistent = not pending and not deleted
+
+            if to_transient and deleted:
+                # INSERTed and DELETEd in the transaction being rolled back:
+                # the DELETE is undone first (deleted -> persistent), then
+                # the INSERT (persistent -> transient); the flag must not
+                # survive into the transient state
+                del state._deleted
+                deleted = False
+                persistent = True
+                if deleted_to_persistent is not None:
+                    deleted_to_persistent(session, state)
 
             state.session_id = None
 
